@@ -165,3 +165,149 @@ Qed.
 
 Theorem best_index_mode_symmetry l : best_index Max (map Qopp l) = best_index Min l.
 Proof. destruct l as [|x l]; simpl; [reflexivity|]. f_equal. apply argbest_from_neg. Qed.
+
+(* ---- promotion-type rung system: whole-system mode symmetry ------------------------------------ *)
+Definition pneg_entry (e : pentry) : pentry :=
+  {| pe_trial := pe_trial e; pe_metric := - pe_metric e; pe_promoted := pe_promoted e |}.
+Definition pneg_rung (rg : prung) : prung :=
+  {| pr_level := pr_level rg; pr_quant := pr_quant rg; pr_data := map pneg_entry (pr_data rg) |}.
+Definition pneg_sys (sys : psys) : psys :=
+  {| ps_rungs := map pneg_rung (ps_rungs sys); ps_running := ps_running sys |}.
+Definition pneg_event (ev : pevent) : pevent :=
+  match ev with PReport t r m => PReport t r (- m) | e => e end.
+Definition pq_ok (rs : list prung) : Prop := Forall (fun rg => 0 < pr_quant rg < 1) rs.
+
+Lemma psl_add_neg e l : psl_add Max (pneg_entry e) (map pneg_entry l) = map pneg_entry (psl_add Min e l).
+Proof.
+  induction l as [|x l IH]; simpl; [reflexivity|].
+  rewrite !Qopp_opp_eq. destruct (Qleb (pe_metric x) (pe_metric e)); simpl; [rewrite IH|]; reflexivity.
+Qed.
+
+Lemma prung_contains_neg t rg : prung_contains t (pneg_rung rg) = prung_contains t rg.
+Proof.
+  unfold prung_contains, pneg_rung. simpl. induction (pr_data rg) as [|e l IH]; simpl; [reflexivity|].
+  rewrite IH. reflexivity.
+Qed.
+
+Lemma first_unpromoted_neg l : forall pos,
+  first_unpromoted (map pneg_entry l) pos =
+  match first_unpromoted l pos with Some (e, p) => Some (pneg_entry e, p) | None => None end.
+Proof.
+  induction l as [|e l IH]; intro pos; simpl; [reflexivity|].
+  destruct (pe_promoted e); [apply IH|reflexivity].
+Qed.
+
+Lemma pe_entry_neg l : map pe_entry (map pneg_entry l) = neg_data (map pe_entry l).
+Proof. unfold neg_data. rewrite !map_map. reflexivity. Qed.
+
+Lemma find_promotable_neg rg : 0 < pr_quant rg < 1 ->
+  find_promotable Max (pneg_rung rg) = find_promotable Min rg.
+Proof.
+  intro Hq. unfold find_promotable. simpl pr_quant. simpl pr_data. rewrite pe_entry_neg.
+  pose proof (quantile_mode_symmetry (pr_quant rg) (map pe_entry (pr_data rg)) Hq) as H.
+  destruct (rung_quantile Min (pr_quant rg) (map pe_entry (pr_data rg))) as [|v|],
+           (rung_quantile Max (pr_quant rg) (neg_data (map pe_entry (pr_data rg)))) as [|w|];
+    try contradiction; try reflexivity.
+  rewrite first_unpromoted_neg. destruct (first_unpromoted (pr_data rg) 0) as [[e p]|]; [|reflexivity].
+  simpl pe_metric. simpl pe_trial.
+  replace (promotable Max (- pe_metric e) w) with (promotable Min (pe_metric e) v); [reflexivity|].
+  rewrite !promotable_is_no_worse. simpl. apply Qleb_iff_eq. rewrite H. split; intro; lra.
+Qed.
+
+Lemma remove_nth_map {A B} (f : A -> B) l : forall i, remove_nth (map f l) i = map f (remove_nth l i).
+Proof. induction l as [|x l IH]; intros [|i]; simpl; try reflexivity. rewrite IH. reflexivity. Qed.
+
+Lemma mark_as_promoted_neg rg pos : mark_as_promoted Max (pneg_rung rg) pos = pneg_rung (mark_as_promoted Min rg pos).
+Proof.
+  unfold mark_as_promoted. simpl pr_data. rewrite nth_error_map.
+  destruct (nth_error (pr_data rg) pos) as [e|]; simpl; [|reflexivity].
+  unfold pneg_rung. simpl. f_equal. rewrite remove_nth_map.
+  apply (psl_add_neg {| pe_trial := pe_trial e; pe_metric := pe_metric e; pe_promoted := true |}).
+Qed.
+
+Lemma sched_scan_neg e rs : pq_ok rs -> forall nm,
+  sched_scan Max e (map pneg_rung rs) nm =
+    (map pneg_rung (fst (sched_scan Min e rs nm)), snd (sched_scan Min e rs nm)).
+Proof.
+  induction 1 as [|rg rest Hq Hf IH]; intro nm; simpl; [reflexivity|].
+  rewrite (find_promotable_neg rg Hq). rewrite (IH (pr_level rg)).
+  destruct (sched_scan Min e rest (pr_level rg)) as [rest' res] eqn:Er. simpl.
+  destruct (pr_level rg <? e)%Z; [|reflexivity].
+  destruct (find_promotable Min rg); simpl; try reflexivity.
+  rewrite mark_as_promoted_neg. reflexivity.
+Qed.
+
+Lemma sched_scan_pq md e rs : pq_ok rs -> forall nm, pq_ok (fst (sched_scan md e rs nm)).
+Proof.
+  induction 1 as [|rg rest Hq Hf IH]; intro nm; simpl; [constructor|].
+  specialize (IH (pr_level rg)). destruct (sched_scan md e rest (pr_level rg)) as [rest' res]. simpl in IH.
+  assert (Hc : pq_ok (rg :: rest')) by (constructor; assumption).
+  destruct (pr_level rg <? e)%Z; [|exact Hc].
+  destruct (find_promotable md rg); simpl; try exact Hc; [|constructor; assumption].
+  constructor; [|exact Hf]. unfold mark_as_promoted. destruct (nth_error (pr_data rg) pos); exact Hq.
+Qed.
+
+Lemma register_at_neg rs : forall level above t m,
+  register_at Max (map pneg_rung rs) level above t (- m) =
+  match register_at Min rs level above t m with
+  | None => None
+  | Some None => Some None
+  | Some (Some (rs', nm)) => Some (Some (map pneg_rung rs', nm))
+  end.
+Proof.
+  induction rs as [|rg rest IH]; intros level above t m; simpl; [reflexivity|].
+  rewrite prung_contains_neg. destruct (pr_level rg =? level)%Z.
+  - destruct (prung_contains t rg); [reflexivity|]. simpl. unfold pneg_rung at 2. simpl.
+    rewrite <- (psl_add_neg {| pe_trial := t; pe_metric := m; pe_promoted := false |}). reflexivity.
+  - rewrite IH. destruct (register_at Min rest level (pr_level rg) t m) as [[[rs' nm]|]|]; reflexivity.
+Qed.
+
+Lemma register_at_pq md rs : pq_ok rs -> forall level above t m rs' nm,
+  register_at md rs level above t m = Some (Some (rs', nm)) -> pq_ok rs'.
+Proof.
+  induction 1 as [|rg rest Hq Hf IH]; intros level above t m rs' nm H; simpl in H; [discriminate|].
+  destruct (pr_level rg =? level)%Z.
+  - destruct (prung_contains t rg); [discriminate|]. injection H as <- _. constructor; assumption.
+  - destruct (register_at md rest level (pr_level rg) t m) as [[[r1 n1]|]|] eqn:E; try discriminate.
+    injection H as <- _. constructor; [exact Hq|]. eapply IH. exact E.
+Qed.
+
+Lemma first_milestone_neg max_t rs skip : first_milestone max_t (map pneg_rung rs) skip = first_milestone max_t rs skip.
+Proof.
+  unfold first_milestone. rewrite map_length. destruct (skip <? length rs)%nat; [|reflexivity].
+  rewrite nth_error_map. destruct (nth_error rs (length rs - (skip + 1))); reflexivity.
+Qed.
+
+Lemma pstep_neg max_t sys ev : pq_ok (ps_rungs sys) ->
+  pstep Max max_t (pneg_sys sys) (pneg_event ev) =
+    (pneg_sys (fst (pstep Min max_t sys ev)), snd (pstep Min max_t sys ev)) /\
+  pq_ok (ps_rungs (fst (pstep Min max_t sys ev))).
+Proof.
+  intro Hq. destruct ev as [|t skip resume|t r m|t]; simpl.
+  - unfold p_on_task_schedule. simpl ps_rungs. rewrite (sched_scan_neg max_t _ Hq).
+    pose proof (sched_scan_pq Min max_t _ Hq max_t) as Hp.
+    destruct (sched_scan Min max_t (ps_rungs sys) max_t) as [rs res]. simpl. split; [reflexivity|exact Hp].
+  - unfold p_on_task_add. simpl ps_rungs. rewrite first_milestone_neg.
+    destruct resume as [[ms rf]|]; simpl; [destruct (rf <? ms)%Z; simpl|]; split; try reflexivity; exact Hq.
+  - unfold p_on_task_report. simpl ps_running. simpl ps_rungs.
+    destruct (assoc_get (ps_running sys) t) as [[ms rf]|]; simpl; [|split; [reflexivity|exact Hq]].
+    destruct (ms <=? r)%Z; simpl; [|split; [reflexivity|exact Hq]].
+    destruct (negb (r =? ms)%Z); simpl; [split; [reflexivity|exact Hq]|].
+    rewrite register_at_neg.
+    destruct (register_at Min (ps_rungs sys) ms max_t t m) as [[[rs nm]|]|] eqn:E; simpl;
+      (split; [reflexivity|]); try exact Hq.
+    eapply register_at_pq; [exact Hq|exact E].
+  - split; [reflexivity|exact Hq].
+Qed.
+
+(* for EVERY sequence of calls: same answers (promoted trial, resume level, next milestone, pause /
+   continue, errors), same state with negated metrics (same order, same promoted flags) *)
+Theorem promotion_mode_symmetry max_t evs : forall sys, pq_ok (ps_rungs sys) ->
+  prun Max max_t (pneg_sys sys) (map pneg_event evs) =
+    (pneg_sys (fst (prun Min max_t sys evs)), snd (prun Min max_t sys evs)).
+Proof.
+  induction evs as [|ev evs IH]; intros sys Hq; simpl; [reflexivity|].
+  destruct (pstep_neg max_t sys ev Hq) as [H1 H2]. rewrite H1.
+  destruct (pstep Min max_t sys ev) as [s o]. simpl in *. rewrite (IH s H2).
+  destruct (prun Min max_t s evs) as [s' os]. reflexivity.
+Qed.
